@@ -619,7 +619,9 @@ def run(ck: Checker) -> None:
     ck.guard("R-PURE-MATCH", lambda: r_pure_match(ck))
     ck.guard("R-MULTI-ORDER", lambda: r_multi_order(ck))
     from .c17 import r_no_memo
-    ck.guard("R-NO-MEMO", lambda: r_no_memo(ck))  # what a pattern matches must not depend on which names were looked up earlier
+    ck.guard("R-NO-MEMO", lambda: r_no_memo(ck))
+    from . import state_rules as S
+    ck.guard("R-PURE-MATCH", lambda: S.r_stateless(ck, "R-PURE-MATCH", PAT, "MultiPatternMatcher", ("match",), "the first matching rule in the given order wins, whatever was matched before"))  # what a pattern matches must not depend on which names were looked up earlier
     ck.require_count("R-NODE-EQ", 2)
     ck.require_count("R-ZIPGUARD", 2)
     ck.require_count("R-TYPES-ALL", 3)
